@@ -702,6 +702,10 @@ def t_solvers():
     sfu = find_def('blocks/support/steady_state.py', 'solve_for_unknowns')
     calls = [n for n in ast.walk(sfu) if isinstance(n, ast.Call) and ast.unparse(n.func) in ('solvers.broyden_solver', 'solvers.newton_solver', 'opt.root', 'opt.root_scalar')]
     fwd = len(calls) >= 6 and all(any(k.arg in ('tol', 'xtol') and ast.unparse(k.value) == 'tol' for k in c.keywords) for c in calls)
+    # ... and that tolerance is the target tolerance the user asked for (options['ttol']) at the entry point solve_steady_state
+    sss = find_def('blocks/block.py', 'Block.solve_steady_state')
+    scalls = [n for n in ast.walk(sss) if isinstance(n, ast.Call) and ast.unparse(n.func) == 'solve_for_unknowns']
+    fwd = fwd and len(scalls) == 1 and any(k.arg == 'tol' and ast.unparse(k.value) == "options['ttol']" for k in scalls[0].keywords)
     out += f"Definition every_solver_call_receives_the_tolerance : bool := {'true' if fwd else 'false'}.\n"
     out += f"Definition default_solver_validates_every_unknown : bool := {'true' if every else 'false'}.\n"
     out += f"Definition default_solver_decision_shape : bool := {'true' if shape else 'false'}.\n"
